@@ -598,7 +598,7 @@ func (e *c07Env) build(cfg *c07Config) (*Proxy, error) {
 // ---------------------------------------------------------------------------------------------
 // client header sets
 
-var c07Styles = []string{"none", "canonical", "lower", "upper", "mixed", "repeated", "comma", "connection", "empty-first"}
+var c07Styles = []string{"none", "canonical", "lower", "upper", "mixed", "repeated", "comma", "connection", "empty-first", "connection-lines"}
 
 // thorough tier only
 var c07ExtraStyles = []string{"repeated-credential-last", "empty-value", "comma-no-space"}
@@ -637,6 +637,14 @@ func c07ClientHeaders(cr *c07Cred, style string) [][2]string {
 			h = append(h, [2]string{"Authorization", cr.Authz})
 		}
 		h = append(h, [2]string{"Connection", "keep-alive, Authorization, " + strings.Join(c07SpoofNames, ", ")})
+	case "connection-lines":
+		// the same over several Connection lines, the first of which is an ordinary option (a field
+		// that occurs more than once is one comma-separated list, RFC 9110 5.3)
+		if cr.Authz != "" {
+			h = append(h, [2]string{"Authorization", cr.Authz})
+		}
+		h = append(h, [2]string{"Connection", "keep-alive"}, [2]string{"Connection", "Authorization, " + strings.Join(c07SpoofNames[:len(c07SpoofNames)/2], ", ")},
+			[2]string{"connection", strings.ToLower(strings.Join(c07SpoofNames[len(c07SpoofNames)/2:], ", "))})
 	case "canonical", "lower", "upper", "mixed":
 		for i, n := range c07SpoofNames {
 			h = append(h, [2]string{c07CaseName(n, style), fmt.Sprintf("evil-%s-%d", style, i)})
@@ -867,7 +875,7 @@ func c07CheckHeader(h c07Hdr, request bool, s *c07Sess, bypass bool, client, obs
 	switch {
 	case foreign && !(request && h.Preserve):
 		why = "client-value"
-	case style == "connection" && len(obs) == 0:
+	case strings.HasPrefix(style, "connection") && len(obs) == 0:
 		why = "connection-drop"
 	default:
 		why = "mismatch"
@@ -1199,7 +1207,7 @@ func init() {
 	register(&checkDef{
 		id:    "C07",
 		level: "exploration",
-		rule:  "full product header configurations (all combinations of the legacy header flags x basic-auth-password on/off [thorough: x set-authorization-header] that pass validation + structured lists: 3 name spellings x 3 preserve patterns x 11 value shapes) x credentials (5 login sessions, 5 crafted cookie sessions, htpasswd, 2 bearer, cookie+bearer conflict, none) x 8 client header styles (every configured name spoofed canonical/lower/upper/mixed case, repeated, comma-joined, listed in Connection, none) [thorough: + credential-last repetition, empty values, comma-joined without space] x 6 paths (proxied, auth-only, bypass by route / trusted IP / preflight, auth-only from trusted IP); reference: header specification evaluated over the session reported by /oauth2/userinfo for the same headers and the provider's token issue log; non-trivial = served case (upstream hit or 202) under a configuration with at least one configured name. Further factors (c07_alpha_test.go): (1) session store: the structured lists and the legacy combinations [quick: those with a password and without prefer-email-to-user] built again with the Redis store x 10 Redis-stored sessions + conflict + none x styles x paths; (2) header lists written as an alpha-config YAML file and loaded through --alpha-config: value shape of entry A x value shape of entry B (user, multi-valued groups, absent claim, basicAuthPassword, static secret, several values [thorough: + prefixed e-mail, no values]) x relation of the two names (distinct, the same name twice = must be rejected, spellings differing only in letter case [thorough: + both non-canonical]) x preserveRequestValue of A x of B x secret source (value, fromFile, fromEnv [thorough: + ${VAR} substitution]; only for lists with a secret) + fixed tail (three tokens, Authorization), request and response lists, x 3 [thorough: 5] credentials x styles x 6 paths (incl. the three bypass kinds without a session, preserveRequestValue standing for skip-auth-strip-headers) [thorough: x both stores]; (3) refresh histories with --cookie-refresh=1m: token-bearing configurations x {Redis, cookie} x 2 users x styles x request that triggers the refresh (proxied, auth-only [thorough: + bypass by route, preflight]) followed by one request on each of the 6 paths: tokens must be those of the refresh grant in the provider's issue log, no header may contain a token of the previous generation",
+		rule:  "full product header configurations (all combinations of the legacy header flags x basic-auth-password on/off [thorough: x set-authorization-header] that pass validation + structured lists: 3 name spellings x 3 preserve patterns x 11 value shapes) x credentials (5 login sessions, 5 crafted cookie sessions, htpasswd, 2 bearer, cookie+bearer conflict, none) x 10 client header styles (every configured name spoofed canonical/lower/upper/mixed case, repeated, comma-joined, listed in Connection on one line and over several lines, empty first occurrence, none) [thorough: + credential-last repetition, empty values, comma-joined without space] x 6 paths (proxied, auth-only, bypass by route / trusted IP / preflight, auth-only from trusted IP); reference: header specification evaluated over the session reported by /oauth2/userinfo for the same headers and the provider's token issue log; non-trivial = served case (upstream hit or 202) under a configuration with at least one configured name. Further factors (c07_alpha_test.go): (1) session store: the structured lists and the legacy combinations [quick: those with a password and without prefer-email-to-user] built again with the Redis store x 10 Redis-stored sessions + conflict + none x styles x paths; (2) header lists written as an alpha-config YAML file and loaded through --alpha-config: value shape of entry A x value shape of entry B (user, multi-valued groups, absent claim, basicAuthPassword, static secret, several values [thorough: + prefixed e-mail, no values]) x relation of the two names (distinct, the same name twice = must be rejected, spellings differing only in letter case [thorough: + both non-canonical]) x preserveRequestValue of A x of B x secret source (value, fromFile, fromEnv [thorough: + ${VAR} substitution]; only for lists with a secret) + fixed tail (three tokens, Authorization), request and response lists, x 3 [thorough: 5] credentials x styles x 6 paths (incl. the three bypass kinds without a session, preserveRequestValue standing for skip-auth-strip-headers) [thorough: x both stores]; (3) refresh histories with --cookie-refresh=1m: token-bearing configurations x {Redis, cookie} x 2 users x styles x request that triggers the refresh (proxied, auth-only [thorough: + bypass by route, preflight]) followed by one request on each of the 6 paths: tokens must be those of the refresh grant in the provider's issue log, no header may contain a token of the previous generation",
 		assumptions: []string{
 			"header values are compared as comma-separated lists (several field lines = one comma-joined line), order ignored, empty items ignored",
 			"admissible readings (counted as ambiguous when they differ): prefer-email-to-user with or without fall-back to the user name, and with or without effect on set-basic-auth; X-Forwarded-Email under prefer-email-to-user and X-Forwarded-Groups under pass-basic-auth alone configured or not; a bearer session's access token is the JWT or nothing; static secret values with or without a session; a bypassed request carrying a valid credential has a session or not",
